@@ -410,14 +410,15 @@ func init() {
 		Runs: []HarnessRun{
 			{Rel: "client", Dir: "client", Entry: "VH_C11_roundtrip", Cases: tierCases([]int{0, 1, 2, 3, 8, 9, 16}, []int{0, 1, 2, 3, 8, 9, 10, 11, 16, 17, 18, 19, 24, 25, 26, 27}), Reach: []string{"bound"}, MaxPaths: 300000, ExtraPkgs: c11Pkgs},
 			{Rel: "client", Dir: "client", Entry: "VH_C11_select", Cases: tierCases([]int{0, 1, 2}, []int{0, 1, 2}), Reach: []string{"decoded"}, MaxPaths: 100000, ExtraPkgs: c11Pkgs},
+			{Rel: "client", Dir: "client", Entry: "VH_C11_walker", Cases: tierCases([]int{0, 4, 8, 12, 2, 15}, []int{0, 4, 8, 12, 2, 6, 10, 14, 3, 7, 11, 15}), Reach: []string{"walked"}, MaxPaths: 300000, ExtraPkgs: c11Pkgs},
 			{Rel: "client", Dir: "client", Entry: "VH_C11_total", Cases: tierCases([]int{0, 1, 2, 3, 4, 8, 9}, []int{0, 1, 2, 3, 4, 8, 9, 10, 11, 12}), Reach: []string{"accepted", "rejected"}, MaxPaths: 300000, ExtraPkgs: c11Pkgs},
 		},
 		Bounds: map[string]string{
-			"quick":    "round trip: keys ka (two values, 0..2 and 0..1 symbolic bytes) and kb (0..1 bytes) through query, urlencoded form, header and cookie, splitting off/on, map[string][]string and map[string]string targets; body dispatch json/xml/cbor with a 0..3-byte payload; totality: arbitrary query (0..5 bytes), form body (0..5), Cookie header (0..5), Content-Type (0..5 seven-bit bytes), header value (0..4)",
+			"quick":    "client struct walker (SetValWithStruct through SetParamsWithStruct / SetCookiesWithStruct / SetFormDataWithStruct): one struct with uint8, int8, uint64, int64, string, []string, []uint8, bool, unexported and untagged fields; one numeric field symbolic at a time (uint8 in 0..40 or 216..255, int8 in -30..30), 64-bit fields from a menu of extremes, strings of 0..2 symbolic bytes; round trip: keys ka (two values, 0..2 and 0..1 symbolic bytes) and kb (0..1 bytes) through query, urlencoded form, header and cookie, splitting off/on, map[string][]string and map[string]string targets; body dispatch json/xml/cbor with a 0..3-byte payload; totality: arbitrary query (0..5 bytes), form body (0..5), Cookie header (0..5), Content-Type (0..5 seven-bit bytes), header value (0..4)",
 			"thorough": "all source x splitting x target combinations",
 		},
 		Assumptions: []string{
-			"reflection is outside the engine: the client's SetValWithStruct and the server's schema decoder (string <-> typed field conversion, struct tags, nested structs) are not executed; the server binds into map targets, for which binder.parse/equalFieldType run as real code over a type-inspection-only reflect bridge",
+			"the server's schema decoder (string -> typed field, reflection that builds and sets values) is not executed: the server binds into map targets, for which binder.parse/equalFieldType run as real code over the engine's reflect bridge; the client's struct walker runs as real code over the same bridge (read-only value inspection), its output is compared with canonical decimal / boolean / verbatim text, not with what the server decodes",
 			"json/xml/cbor codecs are replaced by harness marshal/decoder functions (Config.JSONDecoder etc.); multipart bodies outside",
 			"header values: visible bytes without leading/trailing blank; cookie values: RFC 6265 cookie-octets (HTTP cannot carry others verbatim)",
 		},
